@@ -120,19 +120,17 @@ def run_fault(ctx: Ctx, api, P, kind, pos, call, reps):
         if api == "backward":
             rerr, rg, _ = real_backward(P, torch.float64, call["tensors"], call["inputs"], call["agg"],
                                         call["chunk"], False, pre, report, freeze=fr)
-            if fr:
-                merr, mg = "Rejected", None      # the property names this rejection; what it leaves behind is the observable
-            else:
-                merr, mg, _ = model_backward(ctx.driver, P, call["tensors"], list(dict.fromkeys(call["inputs"])),
-                                             call["agg"], call["chunk"], False, pre, report)
+            m_inputs = call["inputs"] if call["inputs"] is not None else sorted(P.reach_leaves(call["tensors"]))
+            merr, mg, _ = model_backward(ctx.driver, P, call["tensors"], list(dict.fromkeys(m_inputs)),
+                                         call["agg"], call["chunk"], False, pre, report, freeze=fr)
         else:
             retain = True
             rerr, rg, _ = real_mtl(P, torch.float64, call["losses"], call["features"], call["tasks"],
                                    call["shared"], call["agg"], call["chunk"], retain, pre, report, freeze=fr)
-            merr, mg, _ = ("Rejected", None, None) if fr else model_mtl(ctx.driver, P, call["losses"], call["features"],
+            merr, mg, _ = model_mtl(ctx.driver, P, call["losses"], call["features"],
                                     call["tasks"] if call["tasks"] is not None else call["m_tasks"],
                                     call["shared"] if call["shared"] is not None else call["m_shared"],
-                                    call["agg"], call["chunk"], retain, pre, report)
+                                    call["agg"], call["chunk"], retain, pre, report, freeze=fr)
         ctx.case((api, kind, pos, tuple(P.describe()), sx([str(v) for v in call.values()]), rep), nontrivial=True,
                  sample={"api": api, "fault": kind, "position": pos, "program": P.describe(),
                          "call": {k: str(v) for k, v in call.items()}, "raised": rerr})
